@@ -116,6 +116,8 @@ func applyServiceExtends(ctx context.Context, name string, services map[string]a
 	}
 
 	if base == nil {
+		// nothing to inherit from an empty (null) base, but the service is resolved all the same
+		delete(service, "extends")
 		return service, nil
 	}
 	source := deepClone(base).(map[string]any)
